@@ -30,6 +30,7 @@ LEVEL_TEXT = (
     "drawn model; models are sampled."
     " A paths part spells the reader's and writer's file names in nine ways (./, ../, sibling and parent directories, dot-files, blanks and non-ASCII directories, absolute) with the file present, absent, or absent while a same-named file sits in the working directory, under two current directories."
 )
+LEVEL_TEXT += ' Added later: an edit part (a finished program whose producer is deleted, or deleted and re-added with the other fuzziness) and a retry part (first attempt fails for a reason outside the model, repaired, the same Program run again: accepted, output written).'
 LEVEL_NOTE = "Cells the docs leave open are not asserted and counted: list/tuple/number given for a String parameter (coerced to text), a number other than 0/1 given for a Boolean."
 RULE = (
     "Cases: (decl) one per command; (pair) producer, consumer, parameter, library; (fault) valid model + fault kind + "
